@@ -14,17 +14,20 @@ META = dict(
     design="6/C04")
 
 RULE = ("random adaptor trees (bases of depth <= 2 borrowed through by_ref by op trees of depth <= 3, plus owned trees of depth <= 5) over "
-        "[i16;2], [u8;3], i32, f64, [f32;2], source lengths <= 40, by_ref hand-backs after random numbers of next; owned stacks also cloned "
+        "[i16;2], [u8;3], i32, f64, [f32;2] (hand instances) and I24, U24, I48, U48, i8, u16, u32, i64, u64 as bare samples and 2-3 channel arrays (instances over the C03 sample model, true equilibrium, specification-guarded conversions), source lengths <= 40, by_ref hand-backs after random numbers of next; owned stacks also cloned "
         "after j calls (clone and original must continue identically) and driven through clone / nth / skip of the returned iterators; "
         "non-trivial = some op tree (bases expanded) of depth >= 2 containing a delay with k > 0 or a binary node whose sources have different lengths, or an interleaved-sample iterator cloned mid-frame")
 
 
-def gen_case(r, tier):
-    fm = r.choice(["i16x2", "i16x2", "i16x2", "u8x3", "u8x3", "i32x1", "i32x1", "f64x1", "f32x2"])
-    flt = S.FMTS[fm]["flt"]
+def gen_case(r, tier, fm=None):
+    """fm given: one of the instances over the C03 sample model (all other sample formats): smaller trees,
+    equilibrium-sensitive adaptors (delay, sources running dry) and float-companion operations favoured"""
+    allfmt = fm is not None
+    fm = fm or r.choice(["i16x2", "i16x2", "i16x2", "u8x3", "u8x3", "i32x1", "i32x1", "f64x1", "f32x2"])
+    flt = S.FMTS[fm]["flt"] or allfmt
     for attempt in range(40):
         wide = r.chance(1, 6) and attempt < 20
-        g = S.Gen(r, fm, wide=wide, maxlen=10 if flt else 40)
+        g = S.Gen(r, fm, wide=wide, maxlen=(6 if allfmt else 10) if flt else 40)
         owned = r.chance(1, 4)
         nb = 0 if owned else r.choice([1, 1, 2])
         bases = [g.tree(r.choice([0, 1, 2, 2])) for _ in range(nb)]
@@ -66,7 +69,7 @@ def gen_case(r, tier):
         it = dict(fmt=fm, bases=bases, ops=ops, wide=wide)
         if S.valid(it):
             cost = sum(S.float_cost(S.op_tree(o), fm, bases) * 16 for o in ops)
-            if cost <= 1500:
+            if cost <= (900 if allfmt else 1500):
                 return S.build(it)
     raise RuntimeError("could not generate a valid case")
 
@@ -74,7 +77,10 @@ def gen_case(r, tier):
 def gen_cases(rng, tier):
     n = 1200 if tier == "quick" else 20000
     items = [gen_case(rng.fork(f"c04_{k}"), tier) for k in range(n)]
-    return items, {"random_tree_cases": n, "wide_amplitude_cases": sum(1 for it in items if it.get("wide"))}
+    ng = 280 if tier == "quick" else 4200
+    items += [gen_case(rng.fork(f"c04_all_{k}"), tier, S.GEN_FMTS[k % len(S.GEN_FMTS)]) for k in range(ng)]
+    return items, {"random_tree_cases": n, "all_sample_format_cases": ng,
+                   "wide_amplitude_cases": sum(1 for it in items if it.get("wide"))}
 
 
 def main(rep, tier, seed):
